@@ -18,7 +18,7 @@ from vf.ref import linq
 
 BACKENDS = ("atlas", "cms_aod")
 RULE = (
-    "cells = every function name of the README's Math list (+ builtin abs, pow) x 9 uses (standalone column, on float-typed arguments standalone and inside arithmetic, inside +*/ arithmetic, inside an inner lambda under Sum, as the argument of other functions, with a literal in each argument position, "
+    "cells = every function name of the README's Math list (+ builtin abs, pow) x 10 uses (standalone column, with an argument taken from First(), on float-typed arguments standalone and inside arithmetic, inside +*/ arithmetic, inside an inner lambda under Sum, as the argument of other functions, with a literal in each argument position, "
     "inside a comparison + conditional, on integer-typed arguments standalone and inside arithmetic) + calls whose arguments are all number literals (drawn: quarters, ints, the ties x.5, standalone and inside arithmetic) + each name alone in a query of its own (include check), enumerated completely in every run on two back ends; arguments are computed from Hypothesis-drawn "
     "event data inside each function's domain. non-trivial = a (cell, drawn values) pair with a row on which the namesake differs from every "
     "other listed function of the same arity (so a table row mapped to a sibling is visible); distinct by (cell, values)."
@@ -80,6 +80,10 @@ def build_cells(backend):
             # inside an inner lambda under an aggregate; and as the argument of other functions
             cells.append((f"{name}:inlambda", f"j.{vecm}().Select(lambda w: {call} + w).Sum()", name))
             cells.append((f"{name}:wrapped", f"(fabs({call}) + sqrt(fabs({call})) - {call})", name))
+        if name in ("sin", "atan", "cbrt", "fabs", "abs", "tanh", "erf", "atan2", "hypot", "fmax", "copysign"):
+            # an argument taken from First(): its coding leaves the translator inside the loop (events give every vector an element)
+            fa = f"j.{'weights' if backend == 'atlas' else 'chi2s'}().First()"
+            cells.append((f"{name}:floatfirstarg", f"{name}({fa})" if len(SPEC[name]) == 1 else f"{name}({int_method(backend)}, {fa})", name))
         if len(SPEC[name]) >= 2:
             # a literal in each argument position in turn (the other arguments stay computed)
             base_args = [a.replace("j.NINT()", int_method(backend)) for a in SPEC[name]]
@@ -270,7 +274,15 @@ def worker(payload):
         include_alone(backend, stats)
         return stats
     sch = standard_schema(backend)
-    evstrat = events_strategy(sch, [collection(backend)], n_min=2, n_max=3)
+    def _nonempty_vectors(evs):
+        for ev in evs:
+            for o in ev.objs.values():
+                for vv in o.vec.values():
+                    if not vv:
+                        vv.append(1.5)
+        return evs
+
+    evstrat = events_strategy(sch, [collection(backend)], n_min=2, n_max=3).map(_nonempty_vectors)
     if chunks == "all-literals":
         from hypothesis import strategies as st
 
